@@ -143,7 +143,9 @@ def eval_case(case):
                 break
         evals += 1
     # the real Metropolis step
-    if case.get('metropolis') and 0 < p < 1 and not fails:
+    # (the Metropolis move needs some Pauli of non-zero probability to
+    # propose: rates whose p * r_sigma underflow to 0 are p = 0 in effect)
+    if case.get('metropolis') and 1e-9 <= p < 1 and not fails:
         from panqec.simulation import SplittingSimulation
         from panqec.decoders import BeliefPropagationOSDDecoder
         dec = BeliefPropagationOSDDecoder(code, em, p, max_bp_iter=5, osd_order=0)
